@@ -125,6 +125,17 @@ func (t *Translator) processStreamLine(line string, state *StreamingState, w htt
 		}
 	}
 
+	// grab usage stats if present. With stream_options.include_usage they arrive in a final
+	// chunk whose choices array is empty, so this has to happen before the choices check.
+	if usage, usageOk := chunk["usage"].(map[string]interface{}); usageOk {
+		if promptTokens, promptOk := usage["prompt_tokens"].(float64); promptOk {
+			state.inputTokens = int(promptTokens)
+		}
+		if completionTokens, completionsOk := usage["completion_tokens"].(float64); completionsOk {
+			state.outputTokens = int(completionTokens)
+		}
+	}
+
 	choices, ok := chunk["choices"].([]interface{})
 	if !ok || len(choices) == 0 {
 		return nil
@@ -138,16 +149,6 @@ func (t *Translator) processStreamLine(line string, state *StreamingState, w htt
 	// capture finish_reason for later stop_reason mapping
 	if finishReason, finishOk := choice["finish_reason"].(string); finishOk && finishReason != "" {
 		state.lastFinishReason = finishReason
-	}
-
-	// grab usage stats if present (usually in final chunk)
-	if usage, usageOk := chunk["usage"].(map[string]interface{}); usageOk {
-		if promptTokens, promptOk := usage["prompt_tokens"].(float64); promptOk {
-			state.inputTokens = int(promptTokens)
-		}
-		if completionTokens, completionsOk := usage["completion_tokens"].(float64); completionsOk {
-			state.outputTokens = int(completionTokens)
-		}
 	}
 
 	delta, ok := choice["delta"].(map[string]interface{})
